@@ -280,6 +280,7 @@ def h_psf(wh):
 
 # ------------------------------------------------------------------ replay oracle on the real WCSHelper
 def real_oracle(seed=0, n=40):
+    import numpy as np
     from astropy.io import fits
     from astropy.wcs import WCS
     wh = loader.real('wcs_helpers')
@@ -332,6 +333,40 @@ def real_oracle(seed=0, n=40):
         x2, y2, r2, t2 = helper.sky2pix_vec((ra, dec), rr, pav)
         if abs(r2 - sx) > 2e-3 * sx or abs(((t2 - th + 180) % 360) - 180) > 0.05:
             return True, 'vector-roundtrip', 'vector (%.3f, %.2f) came back as (%.4f, %.3f) [%s]' % (sx, th, r2, t2, proj)
+        # the type of the pixel coordinates must not matter: python ints, numpy ints and floats of equal value
+        ri, ci = int(r0), int(c0)
+        ref_v = helper.pix2sky_vec((float(ri), float(ci)), sx, th)
+        ref_e = helper.pix2sky_ellipse((float(ri), float(ci)), sx, sy, th)
+        for label, pixel in (('python ints', (ri, ci)), ('numpy int64', np.array([ri, ci])), ('list of ints', [ri, ci])):
+            got_v = helper.pix2sky_vec(pixel, sx, th)
+            got_e = helper.pix2sky_ellipse(pixel, sx, sy, th)
+            if any(abs(float(g) - float(w_)) > 1e-9 for g, w_ in zip(got_v, ref_v)) or any(abs(float(g) - float(w_)) > 1e-9 for g, w_ in zip(got_e, ref_e)):
+                return True, 'integer-pixel-input', 'pix2sky_vec/pix2sky_ellipse at pixel (%d, %d) given as %s: %s / %s, given as floats: %s / %s' % (ri, ci, label, [float(g) for g in got_v], [float(g) for g in got_e], [float(g) for g in ref_v], [float(g) for g in ref_e])
+    # wide field, near-circular ellipses away from the reference pixel: sky -> pixel -> sky returns the ellipse
+    for it in range(12):
+        hdr = fits.Header()
+        hdr['NAXIS'] = 2
+        hdr['NAXIS1'], hdr['NAXIS2'] = 4000, 4000
+        proj = ('SIN', 'TAN', 'ZEA')[it % 3]
+        hdr['CTYPE1'], hdr['CTYPE2'] = 'RA---' + proj, 'DEC--' + proj
+        hdr['CRVAL1'], hdr['CRVAL2'] = 150.0, (-30.0, 10.0, 60.0)[it % 3]
+        hdr['CRPIX1'], hdr['CRPIX2'] = 2000.0, 2000.0
+        scale = 45.0 / 3600
+        hdr['CDELT1'], hdr['CDELT2'] = -scale, scale
+        hdr['BMAJ'], hdr['BMIN'], hdr['BPA'] = 4 * scale, 4 * scale, 0.0
+        helper = wh.WCSHelper.from_header(hdr)
+        r0, c0 = rng.choice([300.0, 2000.0, 3700.0]), rng.choice([300.0, 1200.0, 3700.0])
+        ra, dec = helper.pix2sky((r0, c0))
+        a = 4 * scale
+        b = 0.95 * a
+        pa = -80.0 + 20.0 * it
+        if pa > 90:
+            pa -= 180
+        _, _, sx_, sy_, th_ = helper.sky2pix_ellipse((ra, dec), a, b, pa)
+        _, _, a2, b2, pa2 = helper.pix2sky_ellipse((r0, c0), sx_, sy_, th_)
+        dpa = abs(((pa2 - pa + 90) % 180) - 90)
+        if abs(a2 - a) > 2e-3 * a or abs(b2 - b) > 2e-3 * b or dpa > 0.2:
+            return True, 'sky-ellipse-roundtrip', 'sky ellipse (%.5f, %.5f, %.1f) at pixel (%.0f, %.0f) of a 4000^2 %s image came back as (%.5f, %.5f, %.2f)' % (a, b, pa, r0, c0, proj, a2, b2, pa2)
     return False, None, None
 
 
